@@ -288,7 +288,7 @@ def gen_bo(rng, init=None):
     b = rng.randint(1, 3)
     bpa = rng.randint(1, 3)
     init = init or rng.choice(['count', 'count', 'dict', 'zero'])
-    n_init = rng.choice([b * k for k in range(1, 5)]) if init == 'count' else (rng.randint(3, 8) if init == 'dict' else 0)
+    n_init = rng.choice([b * k for k in range(1, 5)]) if init == 'count' else (rng.randint(2 * b + 1, 3 * b + 4) if init == 'dict' else 0)
     acq = rng.choice(['lcbsc', 'lcbsc', 'lcbsc', 'uniform', 'randmaxvar'])
     if init == 'zero' and acq == 'randmaxvar':
         acq = 'lcbsc'            # the MaxVar family sets its threshold from the observed discrepancies: needs some evidence
@@ -296,6 +296,8 @@ def gen_bo(rng, init=None):
     if noise == 'dict':
         noise = {('t%d' % i): rng.choice([0, 0.1]) for i in range(d)}
     extra = rng.randint(2, 5) * b
+    if init == 'dict':
+        bpa, extra = rng.choice([1, 1, 2]), rng.randint(4, 6) * b          # several acquisitions after the precomputed evidence
     return dict(part='bo', dim=d, bounds=bounds, b=b, bpa=bpa, init=init, n_init=n_init, acq=acq, noise=noise,
                 n_evidence=n_init + extra, update_interval=rng.choice([1, 3, 10]), seed=rng.randrange(2**31))
 
@@ -369,6 +371,8 @@ def bo_case(ctx, rng, reqs, meta, case=None):
         base = run_bo(dict(case, mpb=1), native.Client())
         for k in range(2):
             c2 = dict(case, mpb=rng.randint(2, 4), sched_seed=rng.randrange(2**31), p_ready=rng.choice([0, 0.3, 0.7]), p_eager=rng.choice([0, 0.4]))
+            if k == 0:
+                c2.update(mpb=3, p_ready=0, p_eager=0)          # the laziest workers: nothing is ever ready before it is waited for
             client = ScheduledClient(random.Random(c2['sched_seed']), c2['p_ready'], c2['p_eager'], cores=2)
             runs.append((c2, run_bo(c2, client)))
     except Timeout:
